@@ -7,10 +7,9 @@
 (* all events consumed, none rejected.                                      *)
 (***************************************************************************)
 EXTENDS Integers, Sequences, TLC, Json, IOUtils
-CONSTANT EventOK(_)
+CONSTANTS EventOK(_), Trace      \* Trace: the deserialised ndjson (bound in the ROOT module so that TLC caches it)
 VARIABLES l, ok
 
-Trace == ndJsonDeserialize(IOEnv.TRACE)
 
 \* register 1: index of the first rejected event; register 3: all rejected indexes (at most 400),
 \* so that one pass names every rejected event (the verdict is still "accepted iff none")
